@@ -82,6 +82,7 @@ func genC05(c *h.Ctx) {
 	genOop(c)
 	genOps2(c)
 	genKnd(c)
+	genSk(c)
 	vs := c05Values(c.Rng)
 	bd := h.BoundaryDoubles()
 	for _, op := range c05Unary {
@@ -143,6 +144,8 @@ func implC05(line string) string {
 		return implInstr(f)
 	case "knd", "knda":
 		return implKnd(f)
+	case "sk", "sku":
+		return implSk(f)
 	case "toInt32":
 		return fmt.Sprint(otto.VerifToInt32(h.ParseVal(f[1])))
 	case "toUint32":
